@@ -44,7 +44,7 @@ check(
     "C07",
     "runtime monitoring: invariant monitor - every Quantity constructed (enrolled from a probe on Quantity.__init__) and every cache value re-fingerprinted after every step of hostile generated histories; ==/hash partition and cache-soundness oracles per history",
     "Held on hundreds (thorough: tens of thousands) of 60-80 step histories mixing creation in every form, Scalar/Array/Quantity arithmetic with differing units and categories, conversions, failed operations, copies and pickles on a fresh POSC database; ~0.5 M fingerprint/pair comparisons per quick run.",
-    "Only public getters, hash, repr and the public quantities_cache attribute are read; vandalism through private attributes or caller-kept dicts is out of scope.",
+    "Only public getters, hash, repr and the public quantities_cache attribute are read; vandalism through private attributes is out of scope (a caller editing the dict it handed to a request is in scope and exercised).",
     "4/C07",
 )
 check(
@@ -92,8 +92,8 @@ check(
 check(
     "C14",
     "runtime monitoring: registration histories (bounded-exhaustive over a fixed alphabet of concrete calls + random) executed on fresh real UnitDatabases and compared step by step with an executable reference model of the documented registration rules; well-formedness invariants evaluated through the public getters after every step; snapshot equality across rejected calls; exhaustive invariant sweep of the shipped databases",
-    "Held for every sequence up to depth 3 (thorough 4) over 29 concrete calls (duplicates, second bases, overrides, from_category, legacy spellings, limits, invalid arguments, categories named like another quantity type) and thousands of random 5-25 call histories: accept/reject, unit order, default unit/value, limits and valid units as the model predicts; I1 one type per unit, I2 identity base first, I3 category units drawn from the type and default value inside limits, I4 valid Scalars for every category/unit, I5 rejected calls change nothing; I1-I4 for all units/categories of the three shipped databases.",
-    "Units are never registered under a legacy spelling; a type without any base is legal and only counted; captions, exception classes and the valid-unit fallback are not modelled.",
+    "Held for every sequence up to depth 3 (thorough 4) over 32 concrete calls (duplicates, second bases, overrides, from_category, legacy spellings, limits, invalid arguments, categories named like another quantity type) and thousands of random 5-25 call histories: accept/reject, unit order, default unit/value, limits and valid units as the model predicts; I1 one type per unit, I2 identity base first, I3 category units drawn from the type and default value inside limits, I4 valid Scalars for every category/unit, I5 rejected calls change nothing; I1-I4 for all units/categories of the three shipped databases.",
+    "A unit registered under a legacy-spelled symbol is part of the alphabet (it must convert with its own functions); a type without any base is legal and only counted; captions, exception classes and the valid-unit fallback are not modelled.",
     "4/C14",
 )
 check(
